@@ -131,7 +131,9 @@ def parse_number(text):
     return v
 
 
-def lex(src):
+def lex(src, numeral_concat=True):
+    """numeral_concat=False: stock Lua read_numeral (a numeral swallows a following '..' and is then malformed) - used to
+    judge text a writer GENERATES, which should be valid under both readings."""
     src = bytes(src)
     n = len(src)
     toks = []
@@ -297,7 +299,7 @@ def lex(src):
                     if j < n and src[j] in b'+-':
                         j += 1
                     continue
-                if d == 46 and j + 1 < n and src[j + 1] == 46:
+                if numeral_concat and d == 46 and j + 1 < n and src[j + 1] == 46:
                     # PICO-8 rule of the dialect (picotool's decimal pattern carries it as '(?!\.)', its hex/binary
                     # patterns by requiring a digit after the point): a numeral never swallows the concatenation
                     # operator, so '1..x' and '0x10..x' are numeral, '..', name
